@@ -2,7 +2,7 @@
 import json, os, shutil
 import vlib
 
-C05_OPS = {"revcomp", "reverse", "rowrevcomp", "rowreverse", "set", "cloneprobe", "emptyprobe"}
+C05_OPS = {"revcomp", "reverse", "rowrevcomp", "rowreverse", "set", "cloneprobe", "cloneappend", "emptyprobe"}
 NEGS = {"C05": ("MirrorAboutSpan", "ImplInvolution"), "C06a": ("TrimTracksStart", "PureLaws"), "C06b": ("FreshReverser", "PureLaws")}
 
 
